@@ -54,13 +54,14 @@ def run(tier):
     t_lat = os.path.join(wd, "lat.ndjson")
     vlib.harness(["legacylocks", "--cases", cases, "--seed", chk.seed, "--out", t_lat, "--sample", 6])
     t_rnd = os.path.join(wd, "rnd.ndjson")
-    vlib.harness(["legacylocks", "--seed", chk.seed, "--out", t_rnd, "--n", 1500 if quick else 20000, "--trees", 1500 if quick else 20000, "--chains", 8])
+    vlib.harness(["legacylocks", "--seed", chk.seed, "--out", t_rnd, "--n", 1000 if quick else 12000, "--trees", 1000 if quick else 12000, "--chains", 8])
     paths = shard_file(t_lat, 2 if quick else 8, wd, "lat") + shard_file(t_rnd, 2 if quick else 12, wd, "rnd")
     own_paths = []
     for i, m in enumerate(menus):
         t_own = os.path.join(wd, "own-%d.ndjson" % i)
-        vlib.harness(["legacylocks", "--seed", chk.seed + i, "--out", t_own, "--own-cases", m, "--own", (400 if quick else 6000) if i == 0 else 0, "--probe", 1 if i == 0 else 0])
-        own_paths += [t_own] if quick else shard_file(t_own, 4, wd, "own-%d" % i)
+        vlib.harness(["legacylocks", "--seed", chk.seed + i, "--out", t_own, "--own-cases", m, "--own", (400 if quick else 4000) if i == 0 else 0, "--probe", 1 if i == 0 else 0,
+                      "--own-every", 3 if quick else 1])
+        own_paths += shard_file(t_own, 2 if quick else 4, wd, "own-%d" % i)
     paths += own_paths
     validate_parallel("Trace_LegacyLocks.tla", paths, chk, "x03", sig_fn=sig, jobs=4, classes=["X03"])
 
@@ -160,4 +161,29 @@ def run(tier):
     chk.assumptions = ["the per-assertion reading on the parse_spends path is compared in consistent chain states only (birth <= now < MAX), as in C03",
                        "created coins of the borrowed form are observed in the hash set's iteration order; the relation only requires equality as bags",
                        "G1 keys and SHA-256 are opaque byte strings / the TLC override"]
+    return chk.finish()
+
+
+def replay(path):
+    """re-run the recorded events of a replay file on the current tree (same summaries / chain states / bundles /
+    perturbation seeds) and let TLC judge the new observations"""
+    wd = vlib.workdir("X03")
+    vlib.EVID = os.path.join(wd, "replay-evidence")  # a replay must not overwrite the evidence of the last run
+    vlib.REPLAYS = os.path.join(wd, "replay-out")
+    chk = vlib.Check("X03", "quick")
+    ev = os.path.join(wd, "replay-events.ndjson")
+    n = 0
+    with open(ev, "w") as f:
+        for it in json.load(open(path)):
+            f.write(json.dumps(it["case"]) + "\n")
+            n += 1
+    if not n:
+        raise ToolError("no replayable event in %s" % path)
+    t = os.path.join(wd, "replayed.ndjson")
+    vlib.harness(["legacylocks", "--replay", ev, "--seed", chk.seed, "--out", t])
+    validate_parallel("Trace_LegacyLocks.tla", [t], chk, "x03-replay", sig_fn=sig, jobs=1, classes=["X03"])
+    for e in vlib.read_ndjson(t):
+        chk.sample({k: v for k, v in e.items() if k in ("k", "agg", "sample", "name", "same_value", "same_owned")}, limit=3)
+        chk.nontrivial_add(h(e))
+    chk.rule = "replay of %d recorded events" % n
     return chk.finish()
